@@ -942,3 +942,115 @@ def sp_rowsum(I, st, args, kwargs):
     c_ = z3.Int('c!rowsum')
     sel = z3.Lambda([c_], X.arr[rr][idx.arr[c_]])
     return VInt(SUMI(sel, idx.length)) if X.ek == 'int' else VReal(SUMR(sel, idx.length))
+
+
+# ----------------------------------------------------------------------------- streaming (C08)
+def _stream_syms(I):
+    from .sym import sort_of
+    if not hasattr(I.speclib, '_STREAM'):
+        NV = z3.Function('nvalid', AII, I_, I_, I_, I_)       # nvalid(nf, s, nc, k): selected lines with the right field count among the first k
+        NI = z3.Function('ninvalid', AII, I_, I_, I_, I_)     # ... with a wrong field count
+        nf = z3.Const('st_nf', AII)
+        s_, nc = z3.Int('st_s'), z3.Int('st_nc')
+
+        def sel(i):
+            return PYMOD(i + 1, s_) == 0
+        for F, name, cond in ((NV, 'nvalid', lambda i: z3.And(sel(i), nf[i] == nc)), (NI, 'ninvalid', lambda i: z3.And(sel(i), nf[i] != nc))):
+            axiom(name + '.base', z3.ForAll([nf, s_, nc], F(nf, s_, nc, 0) == 0, patterns=[F(nf, s_, nc, 0)]), name)
+            axiom(name + '.step', z3.ForAll([nf, s_, nc, _m], z3.Implies(_m > 0, F(nf, s_, nc, _m) == F(nf, s_, nc, _m - 1) + z3.If(cond(_m - 1), 1, 0)),
+                                            patterns=[F(nf, s_, nc, _m)]), name)
+        lemma('nvalid_mono',
+              z3.ForAll([nf, s_, nc, _i, _m], z3.Implies(z3.And(0 <= _i, _i <= _m), z3.And(
+                  NV(nf, s_, nc, _i) <= NV(nf, s_, nc, _m), NV(nf, s_, nc, _i) >= 0,
+                  z3.Implies(z3.And(_i < _m, sel(_i), nf[_i] == nc), NV(nf, s_, nc, _i) < NV(nf, s_, nc, _m)))),
+                  patterns=[z3.MultiPattern(NV(nf, s_, nc, _i), NV(nf, s_, nc, _m))]),
+              [(l_, z3.ForAll([nf, s_, nc], f)) for l_, f in _induction(
+                  lambda n: z3.ForAll([_i], z3.Implies(z3.And(0 <= _i, _i <= n), z3.And(
+                      NV(nf, s_, nc, _i) <= NV(nf, s_, nc, n), NV(nf, s_, nc, _i) >= 0,
+                      z3.Implies(z3.And(_i < n, sel(_i), nf[_i] == nc), NV(nf, s_, nc, _i) < NV(nf, s_, nc, n))))), _n)])
+        ROW = sort_of(('list', 'pstr'))
+        TRIP = sort_of(('tuple', 'pstr', 'pstr', 'real'))
+        TL = sort_of(('list', ('tuple', 'pstr', 'pstr', 'real')))
+        AR = z3.ArraySort(I_, ROW)
+        # triplets produced by ranking the batch rows A[off .. off+n) as batch number j (global state evolves with j)
+        BTRIP = z3.Function('batch_triplets', AR, I_, I_, I_, TL)
+        A1, A2 = z3.Const('st_A1', AR), z3.Const('st_A2', AR)
+        o1, o2, n_, j_ = z3.Int('st_o1'), z3.Int('st_o2'), z3.Int('st_n'), z3.Int('st_j')
+        axiom('batch_triplets.rows_only', z3.ForAll([A1, o1, A2, o2, n_, j_], z3.Implies(
+            z3.ForAll([_t], z3.Implies(z3.And(_t >= 0, _t < n_), A1[o1 + _t] == A2[o2 + _t])),
+            BTRIP(A1, o1, n_, j_) == BTRIP(A2, o2, n_, j_)),
+            patterns=[z3.MultiPattern(BTRIP(A1, o1, n_, j_), BTRIP(A2, o2, n_, j_))]), 'batch_triplets')
+        axiom('batch_triplets.len', z3.ForAll([A1, o1, n_, j_], TL.accessor(0, 0)(BTRIP(A1, o1, n_, j_)) >= 0, patterns=[BTRIP(A1, o1, n_, j_)]), 'batch_triplets')
+        # offsets of the batches inside the concatenated triplet list
+        TOFF = z3.Function('trip_off', AR, I_, I_, I_)     # trip_off(C, B, j) = sum_{i<j} len(batch_triplets(C, i*B, B, i))
+        C_, B_sz = z3.Const('st_C', AR), z3.Int('st_B')
+        lenf = TL.accessor(0, 0)
+        # the j-th full batch of size B: batch_j(C, B, j) = batch_triplets(C, j*B, B, j)  (keeps j*B out of quantified invariants)
+        BJ = z3.Function('batch_j', AR, I_, I_, TL)
+        axiom('batch_j.def', z3.ForAll([C_, B_sz, _j], BJ(C_, B_sz, _j) == BTRIP(C_, _j * B_sz, B_sz, _j), patterns=[BJ(C_, B_sz, _j)]),
+              'batch_j', opaque=True)
+        axiom('batch_j.len', z3.ForAll([C_, B_sz, _j], lenf(BJ(C_, B_sz, _j)) >= 0, patterns=[BJ(C_, B_sz, _j)]), 'batch_j')
+        axiom('trip_off.base', z3.ForAll([C_, B_sz], TOFF(C_, B_sz, 0) == 0, patterns=[TOFF(C_, B_sz, 0)]), 'trip_off')
+        axiom('trip_off.step', z3.ForAll([C_, B_sz, _j], z3.Implies(_j > 0, TOFF(C_, B_sz, _j) == TOFF(C_, B_sz, _j - 1)
+              + lenf(BJ(C_, B_sz, _j - 1))), patterns=[TOFF(C_, B_sz, _j)]), 'trip_off')
+        lemma('trip_off_block',
+              # batch j occupies [trip_off(j), trip_off(j) + len(batch j)) which lies below trip_off(k) for every later k
+              z3.ForAll([C_, B_sz, _j, _k], z3.Implies(z3.And(0 <= _j, _j < _k),
+                        z3.And(TOFF(C_, B_sz, _j) >= 0, TOFF(C_, B_sz, _j) + lenf(BJ(C_, B_sz, _j)) <= TOFF(C_, B_sz, _k))),
+                        patterns=[z3.MultiPattern(TOFF(C_, B_sz, _j), TOFF(C_, B_sz, _k))]),
+              [(l_, z3.ForAll([C_, B_sz], f)) for l_, f in _induction(
+                  lambda n: z3.And(TOFF(C_, B_sz, n) >= 0, z3.ForAll([_j], z3.Implies(z3.And(0 <= _j, _j < n), z3.And(
+                      TOFF(C_, B_sz, _j) >= 0, TOFF(C_, B_sz, _j) + lenf(BJ(C_, B_sz, _j)) <= TOFF(C_, B_sz, n))))), _n)])
+        I.speclib._STREAM = dict(NV=NV, NI=NI, BTRIP=BTRIP, TOFF=TOFF, TL=TL, lenf=lenf, BJ=BJ)
+    return I.speclib._STREAM
+
+
+@spec('nvalid')
+def sp_nvalid(I, st, args, kwargs):
+    nf, s_, nc, k = args
+    return VInt(_stream_syms(I)['NV'](nf.arr, to_term(s_, 'int'), to_term(nc, 'int'), to_term(k, 'int')))
+
+
+@spec('ninvalid')
+def sp_ninvalid(I, st, args, kwargs):
+    nf, s_, nc, k = args
+    return VInt(_stream_syms(I)['NI'](nf.arr, to_term(s_, 'int'), to_term(nc, 'int'), to_term(k, 'int')))
+
+
+@spec('batch_triplets')
+def sp_batch_triplets(I, st, args, kwargs):
+    from .sym import from_term
+    rows, off, n, j = args
+    d = _stream_syms(I)
+    return from_term(d['BTRIP'](rows.arr, to_term(off, 'int'), to_term(n, 'int'), to_term(j, 'int')), ('list', ('tuple', 'pstr', 'pstr', 'real')))
+
+
+@spec('trip_off')
+def sp_trip_off(I, st, args, kwargs):
+    rows, B, j = args
+    return VInt(_stream_syms(I)['TOFF'](rows.arr, to_term(B, 'int'), to_term(j, 'int')))
+
+
+@spec('lenpos')
+def sp_lenpos(I, st, args, kwargs):
+    """every batch result is a list: len >= 0 (type invariant of list-valued function symbols)."""
+    return VBool(True)
+
+
+@spec('fn_opaque')
+def sp_fn_opaque(I, st, args, kwargs):
+    """fn_opaque("name", "Sort", a, ...): function symbol with a result of an uninterpreted sort (e.g. a grouped frame)."""
+    from .sym import VOpaque, sort_of
+    name, srt = args[0].concrete(), args[1].concrete()
+    terms = [t for a in args[2:] for t in I.flatten_terms(a)]
+    F = z3.Function(name, *[t.sort() for t in terms], sort_of(('opaque', srt)))
+    return VOpaque(srt, F(*terms))
+
+
+@spec('batch_j')
+def sp_batch_j(I, st, args, kwargs):
+    """batch_j(consumed, B, j): triplets of the j-th full batch, i.e. batch_triplets(consumed, j*B, B, j)."""
+    from .sym import from_term
+    rows, B, j = args
+    d = _stream_syms(I)
+    return from_term(d['BJ'](rows.arr, to_term(B, 'int'), to_term(j, 'int')), ('list', ('tuple', 'pstr', 'pstr', 'real')))
